@@ -156,7 +156,7 @@ impl<'u> Tr<'u> {
             let text = format!("Definition {coq} : {} := {}.", ty.coq(), g.render(2));
             let origin = format!("{}:{} const {key} {}", self.cur_file, at.item.span().start().line, tok_hash(&at.item.expr));
             self.emit(&coq, text, origin);
-            self.funcs.insert(key.clone(), FnInfo { coq: coq.clone(), has_self: false, mutating: false, params: vec![], ret: ty.clone(), partial: false });
+            self.funcs.insert(key.clone(), FnInfo { coq: coq.clone(), has_self: false, mutating: false, params: vec![], ret: ty.clone(), partial: false, untranslated: false, opaque: vec![] });
             Ok((raw(coq.clone()), ty))
         })();
         self.cur_file = saved;
@@ -615,14 +615,22 @@ impl<'u> Tr<'u> {
         if self.spec.opaque_calls.iter().any(|k| *k == key) {
             return self.opaque_input(&key, sp);
         }
+        if segs.len() >= 2 && segs[segs.len() - 1] == "default" && args.is_empty() {
+            let tn = key.split("::").next().unwrap_or("").to_owned();
+            if !self.u.methods.contains_key(&(tn.clone(), "default".to_owned()))
+                && (self.u.structs.contains_key(&tn) || self.u.enums.contains_key(&tn))
+            {
+                let t = self.named_ty(&tn, sp)?;
+                let g = self.default_of(&t, sp)?;
+                return Ok((g, t));
+            }
+        }
         let fi = self.ensure_fn(&key, sp)?;
         if fi.mutating {
             return self.err(sp, format!("call of the mutating `{key}` in an expression"));
         }
-        if fi.partial {
-            return self.err(sp, format!("`{key}` has opaque inputs or untranslated parameters and cannot be called from a translated function"));
-        }
-        let gs = self.call_args(args, &fi.params, env, sp)?;
+        let mut gs = self.call_args(args, &fi.params, env, sp)?;
+        gs.extend(self.hand_on_opaque(&key, &fi, sp)?);
         Ok((app(&fi.coq, gs), fi.ret.clone()))
     }
 
@@ -644,8 +652,8 @@ impl<'u> Tr<'u> {
         }
         let name = m.method.to_string();
         let args: Vec<&Expr> = m.args.iter().collect();
-        let rh = if matches!(name.as_str(), "unwrap_or" | "or" | "or_else") {
-            hint.map(|h| if name == "unwrap_or" { Ty::Option(Box::new(h.clone())) } else { h.clone() })
+        let rh = if matches!(name.as_str(), "unwrap_or" | "unwrap_or_else" | "or" | "or_else") {
+            hint.map(|h| if name.starts_with("unwrap_or") { Ty::Option(Box::new(h.clone())) } else { h.clone() })
         } else {
             None
         };
@@ -680,6 +688,15 @@ impl<'u> Tr<'u> {
                 let t = if **inner == Ty::Never { ta } else { (**inner).clone() };
                 Ok((G::Match(Box::new(recv), vec![("Some o".into(), raw("o")), ("None".into(), a)]), t))
             }
+            (Ty::Option(inner), "unwrap_or_else", 1) => {
+                let body = self.closure0(args[0])?;
+                if contains_return_expr(body) {
+                    return self.err(body.span(), "`return` inside a closure argument");
+                }
+                let (a, ta) = self.tail_value(body, env, Some(inner))?;
+                let t = if **inner == Ty::Never { ta } else { (**inner).clone() };
+                Ok((G::Match(Box::new(recv), vec![("Some o".into(), raw("o")), ("None".into(), a)]), t))
+            }
             (Ty::Option(inner), "or", 1) | (Ty::Option(inner), "or_else", 1) => {
                 let body = if name == "or" { args[0] } else { self.closure0(args[0])? };
                 if contains_return_expr(body) {
@@ -698,11 +715,9 @@ impl<'u> Tr<'u> {
                 if fi.mutating {
                     return self.err(sp, format!("call of the mutating `{key}` in an expression"));
                 }
-                if fi.partial {
-                    return self.err(sp, format!("`{key}` has opaque inputs or untranslated parameters and cannot be called from a translated function"));
-                }
                 let mut gs = vec![recv];
                 gs.extend(self.call_args(args, &fi.params, env, sp)?);
+                gs.extend(self.hand_on_opaque(&key, &fi, sp)?);
                 Ok((app(&fi.coq, gs), fi.ret.clone()))
             }
             _ => self.err(sp, format!("unsupported method `{name}` on a value of type {}", rt.coq())),
@@ -734,7 +749,11 @@ impl<'u> Tr<'u> {
             // the same call site, translated a second time
             return Ok((raw(n.clone()), t.clone()));
         }
-        if self.opaque.iter().any(|(k, _, _)| k.starts_with(&format!("{key}@"))) {
+        if let Some((_, n, t)) = self.opaque.iter().find(|(k, _, _)| k.starts_with(&format!("{key}@"))) {
+            if self.spec.opaque_consts.iter().any(|k| k == key) {
+                // one constant of the run, however often it is asked for
+                return Ok((raw(n.clone()), t.clone()));
+            }
             return self.err(sp, format!("the opaque call `{key}` occurs more than once in one function"));
         }
         let u = self.u;
@@ -763,6 +782,27 @@ impl<'u> Tr<'u> {
             "opaque call: the value of `{key}(..)` is an input `{name}` of the function that calls it (its arguments and its body are not translated)"
         ));
         Ok((raw(name), ty))
+    }
+
+    /// the callee has opaque inputs: they become inputs of the function being translated as well and
+    /// are handed on (an input that is not a declared constant of the run may be asked for once only)
+    fn hand_on_opaque(&mut self, key: &str, fi: &FnInfo, sp: Span) -> R<Vec<G>> {
+        if fi.untranslated {
+            return self.err(sp, format!("`{key}` has untranslated parameters and cannot be called from a translated function"));
+        }
+        let mut out = Vec::new();
+        for (okey, n, t) in &fi.opaque {
+            let is_const = self.spec.opaque_consts.iter().any(|k| k == okey);
+            let present = self.opaque.iter().any(|(k, _, _)| k.starts_with(&format!("{okey}@")));
+            if present && !is_const {
+                return self.err(sp, format!("the opaque call `{okey}` is reached more than once (through `{key}`)"));
+            }
+            if !present {
+                self.opaque.push((format!("{okey}@via {key}"), n.clone(), t.clone()));
+            }
+            out.push(raw(n.clone()));
+        }
+        Ok(out)
     }
 
     fn struct_lit(&mut self, s: &syn::ExprStruct, env: &Env) -> R<(G, Ty)> {
@@ -822,8 +862,8 @@ impl<'u> Tr<'u> {
     /// pure expression (no `return` inside)
     fn expr(&mut self, e: &Expr, env: &Env, hint: Option<&Ty>) -> R<(G, Ty)> {
         let sp = e.span();
-        if let Expr::Field(_) = e {
-            // a declared free variable of a tail_match request (`runner_opts.no_tests`)
+        if let Expr::Field(_) | Expr::MethodCall(_) = e {
+            // a declared free variable of a request (`runner_opts.no_tests`, `settings.retries()`)
             if let Some(b) = env.lookup(&norm(e)) {
                 return Ok((raw(b.coq.clone()), b.ty.clone()));
             }
@@ -859,6 +899,12 @@ impl<'u> Tr<'u> {
                             _ => Ty::Never,
                         };
                         return Ok((raw("None"), Ty::Option(Box::new(t))));
+                    }
+                }
+                {
+                    let segs: Vec<String> = p.path.segments.iter().map(|s| s.ident.to_string()).collect();
+                    if segs.len() >= 2 && segs[segs.len() - 2] == "Duration" && segs[segs.len() - 1] == "ZERO" {
+                        return Ok((raw("0%N"), Ty::Duration));
                     }
                 }
                 match self.resolve_path(&p.path, env)? {
